@@ -7,9 +7,9 @@ proximal maps characterised as resolvents (`IsProx`: `p = prox v ↔ (v - p)/τ 
 ARBITRARY set-valued operators `∂f` (no convexity needed for the fixed-point statements).
 
 NOT proved (said once, also in the evidence): that the non-smooth solvers CONVERGE; exactness
-of CG after dimension-many steps (`cg_exact_after_dim`: needs mutual conjugacy of all
-directions, not attempted); the converse half of the fixed-point characterisation of
-`douglas_rachford_pd` (see `C12.douglas_rachford_pd_fixed_point_partial`).
+of CG after dimension-many steps (`cg_exact_after_dim`: needs mutual conjugacy of ALL
+directions; `C12.cg_exact_after_dim_partial` proves the consecutive relations); existence of
+the governing point in the Douglas–Rachford converse.
 -/
 import OdlModel.Model.Solvers
 import OdlModel.Lemmas.Solvers
@@ -21,6 +21,10 @@ import Mathlib.Tactic.Ring
 import Mathlib.Tactic.Module
 import Mathlib.Tactic.LinearCombination
 import Mathlib.Tactic.NormNum
+import Mathlib.Tactic.FieldSimp
+import Mathlib.Algebra.Field.Rat
+import Mathlib.Algebra.Order.Field.Rat
+import Mathlib.Algebra.Order.Field.Basic
 
 open OdlModel.Solvers
 open RealInnerProductSpace
@@ -83,6 +87,20 @@ theorem C12.kaczmarz_error_mono (m : Nat) (A : Nat → E →ₗ[ℝ] F) (At : Na
   unfold KaczmarzP.step
   split <;> exact this
 
+/-- Landweber WITH a projection that does not increase the distance to a solution `x*` of
+`A x = b` (e.g. the metric projection onto a closed convex set containing `x*`):
+`0 ≤ ω ≤ 2/c²` ⟹ `‖x₊ − x*‖ ≤ ‖x − x*‖` (the residual itself need not be monotone then). -/
+theorem C12.landweber_error_mono (A : E →ₗ[ℝ] F) (At : F →ₗ[ℝ] E) (hadj : AdjPair A At)
+    (c : ℝ) (hc0 : 0 ≤ c) (hc : ∀ u, ‖A u‖ ≤ c * ‖u‖) (b : F) (ω : ℝ) (h0 : 0 ≤ ω)
+    (h1 : ω * c ^ 2 ≤ 2) (xs : E) (hxs : A xs = b) (proj : Option (E → E))
+    (hproj : ∀ p ∈ proj, ∀ x, ‖p x - xs‖ ≤ ‖x - xs‖) (s : LandweberS E F) :
+    ‖(LandweberP.step ⟨A, fun _ => At, b, ω, proj⟩ s).x - xs‖ ≤ ‖s.x - xs‖ := by
+  have hk := kaczmarz_inner_mono A At hadj c hc0 hc b ω h0 h1 xs hxs s.x
+  simp only [LandweberP.step]
+  cases proj with
+  | none => simpa [applyProj] using hk
+  | some p => exact le_trans (hproj p rfl _) hk
+
 /-! ### Conjugate gradients -/
 
 /-- `conjugate_gradient` for a symmetric positive semidefinite `A` and `A x* = b`: the energy
@@ -109,6 +127,52 @@ theorem C12.cgn_residual_mono (A : E →ₗ[ℝ] F) (At : F →ₗ[ℝ] E) (hadj
   rw [← hinv.1, ← h1.1.1]
   exact h1.2
 
+/-- PARTIAL result towards `cg_exact_after_dim` (conjugate gradients exact after dimension-many
+steps; NOT proved: it needs mutual conjugacy of ALL directions): along the run of
+`conjugate_gradient` for a symmetric `A`, every executed loop body (`n`-th state not stopped,
+`⟪p, A p⟫ ≠ 0`, `r ≠ 0`) produces a residual orthogonal to the previous residual and to the
+previous direction, and a direction `A`-conjugate to the previous direction — for all `n`. -/
+theorem C12.cg_exact_after_dim_partial (A : E →ₗ[ℝ] E) (hsym : ∀ u v, ⟪A u, v⟫ = ⟪u, A v⟫)
+    (b x0 junk : E) (n : Nat) :
+    let s := (cgReal A b).step^[n] ((cgReal A b).init x0 junk)
+    let t := (cgReal A b).step^[n + 1] ((cgReal A b).init x0 junk)
+    s.stopped = false → ⟪s.p, A s.p⟫ ≠ 0 → s.sqnormROld ≠ 0 →
+      ⟪t.r, s.r⟫ = 0 ∧ ⟪t.r, s.p⟫ = 0 ∧ ⟪t.p, A s.p⟫ = 0 := by
+  intro s t hst hip hr
+  have hinv : CgInv2 A b s := by
+    apply iterate_inv (cgReal A b).step (CgInv2 A b) _ n _ (cg_init_inv2 A b x0 junk)
+    intro u hu
+    by_cases h1 : u.stopped = false
+    · by_cases h2 : ⟪u.p, A u.p⟫ = 0
+      · -- `return`: only `d` and the flag change
+        have : (cgReal A b).step u = { u with d := A u.p, stopped := true } := by
+          unfold CgP.step; simp only [h1, Bool.false_eq_true, if_false, cgReal, h2, if_true]
+        rw [this]; exact hu
+      · by_cases h3 : u.sqnormROld = 0
+        · -- r = 0: the step keeps r = 0 (α = 0), the invariant is re-established trivially
+          have hr0 : u.r = 0 := by
+            have := hu.1.2.2; rw [h3] at this
+            exact norm_eq_zero.mp (pow_eq_zero_iff two_ne_zero |>.mp this.symm)
+          have : (cgReal A b).step u =
+              ⟨u.x, 0, (0 : E), A u.p, 0, false, u.log ++ [lincomb (1 : ℝ) u.x (0 : ℝ) u.p]⟩ := by
+            unfold CgP.step
+            simp only [h1, Bool.false_eq_true, if_false, cgReal, h2, h3, zero_div, neg_zero, hr0,
+              lincomb, zero_smul, add_zero, one_smul, norm_zero, ne_eq, OfNat.ofNat_ne_zero,
+              not_false_eq_true, zero_pow, div_zero, smul_zero]
+          rw [this]
+          refine ⟨⟨?_, ?_, ?_⟩, ?_⟩
+          · show (0 : E) = b - A u.x; rw [← hu.1.1, hr0]
+          · show ⟪(0 : E), (0 : E)⟫ = ‖(0 : E)‖ ^ 2; simp
+          · show (0 : ℝ) = ‖(0 : E)‖ ^ 2; simp
+          · show ⟪A (0 : E), (0 : E)⟫ = ⟪A (0 : E), (0 : E)⟫; rfl
+        · exact (cg_step2 A hsym b u hu h1 h2 h3).1
+    · have : (cgReal A b).step u = u := by
+        unfold CgP.step; simp only [Bool.not_eq_false] at h1; simp only [h1, if_true]
+      rw [this]; exact hu
+  have := cg_step2 A hsym b s hinv hst hip hr
+  have ht : t = (cgReal A b).step s := Function.iterate_succ_apply' _ _ _
+  rw [ht]; exact this.2
+
 /-! ### Power method -/
 
 /-- The power-method estimate never exceeds any bound `c` of the operator (in particular
@@ -134,6 +198,28 @@ theorem C12.power_method_le_opnorm (A : E →ₗ[ℝ] F) (At : F →ₗ[ℝ] E) 
   split_ifs at h with hf
   cases h
   exact (h3 (by simpa using hf)).2
+/-- The self-adjoint branch (`op.adjoint is op`, iteration on `A` itself): every returned estimate
+`‖A x‖`, `‖x‖ = 1`, is `≤ c` for any bound `c` of `A`; all `maxiter = n + 1`, all start vectors. -/
+theorem C12.power_method_selfadjoint_le_opnorm (A : E →ₗ[ℝ] E) (c : ℝ)
+    (hA : ∀ u, ‖A u‖ ≤ c * ‖u‖) (isZero : ℝ → Bool)
+    (hz : ∀ k, k = 0 → isZero k = true) (isClose : ℝ → ℝ → Bool) (x0 : E) (n : Nat) (est : ℝ)
+    (h : (powerSelfReal A isZero isClose).run x0 (n + 1) = some est) : est ≤ c := by
+  unfold PowerSelfP.run at h
+  rw [iter_eq, Function.iterate_succ_apply] at h
+  have hs := powerSelf_step A c hA isZero hz isClose
+  have h1 := powerSelf_init_inv A isZero hz isClose x0
+  set s0 := (powerSelfReal A isZero isClose).init x0 with hs0
+  have h2 : PowerInv2 c ((powerSelfReal A isZero isClose).step s0) := by
+    by_cases hd : s0.done = false
+    · exact (hs s0).1 h1 hd
+    · exfalso; apply hd; rw [hs0]
+      by_cases hz0 : isZero ‖x0‖ = true <;> simp [PowerSelfP.init, powerSelfReal, hz0]
+  have h3 := iterate_inv _ (PowerInv2 c) (fun s => (hs s).2) n _ h2
+  simp only at h
+  split_ifs at h with hf
+  cases h
+  exact (h3 (by simpa using hf)).2
+
 end
 
 /-! ### Backtracking line search, steepest descent -/
@@ -316,10 +402,11 @@ theorem C12.forward_backward_pd_fixed_point_iff (m : Nat) (L : Nat → X → Y) 
 the loop body leaves the governing pair `(x, v)` unchanged, then the point `p1` that the solver
 shows to the callback / returns, together with the dual points `p2_i` it computes, satisfies the
 optimality conditions `−Σ L_i* p2_i ∈ ∂f(p1)` and `L_i p1 ∈ ∂g_i*(p2_i)`.
-PARTIAL: the converse (every KKT pair is `(p1, p2)` of some fixed governing pair `(x, v)`,
-namely the solution of `x = p1 − τ/2 Σ L_i*(2 p2_i − v_i)`, `v_i = p2_i + σ_i/2 L_i x`) is not
-proved. -/
-theorem C12.douglas_rachford_pd_fixed_point_partial (m : Nat) (hm : m ≠ 0) (L : Nat → X →ₗ[ℝ] Y)
+The converse is `C12.douglas_rachford_pd_fixed_point_converse`.  (What is NOT proved: that for
+every KKT pair the governing equations have a solution `(x, v)`; they reduce to
+`(I − τ/4 Σ σ_i L_i* L_i) x = p1 − τ/2 Σ L_i* p2_i`, solvable under the step condition
+`τ Σ σ_i ‖L_i‖² < 4` — an operator inversion outside the abstract setting.) -/
+theorem C12.douglas_rachford_pd_fixed_point (m : Nat) (hm : m ≠ 0) (L : Nat → X →ₗ[ℝ] Y)
     (Lt : Nat → Y →ₗ[ℝ] X) (proxF : X → X) (proxGc : Nat → Y → Y) (τ lam : ℝ) (σ : Nat → ℝ)
     (hτ : τ ≠ 0) (hlam : lam ≠ 0) (hσ : ∀ i, σ i ≠ 0) (subF : X → Set X) (subGc : Nat → Y → Set Y)
     (hF : IsProx proxF τ subF) (hG : ∀ i, IsProx (proxGc i) (σ i) (subGc i))
@@ -388,7 +475,149 @@ theorem C12.douglas_rachford_pd_fixed_point_partial (m : Nat) (hm : m ≠ 0) (L 
         linear_combination (norm := module) hve i
       rw [this, smul_smul, inv_mul_cancel₀ (hσ i), one_smul]
     rw [e] at h1; exact h1
+/-- Converse: a KKT pair `(p1, p2)` together with a governing pair `(x, v)` that solves
+`x = p1 − τ/2 Σ L_i*(2 p2_i − v_i)`, `v_i = p2_i + σ_i/2 L_i x` is left unchanged by the loop body,
+and the body shows exactly `p1` to the callback. -/
+theorem C12.douglas_rachford_pd_fixed_point_converse (m : Nat) (hm : m ≠ 0) (L : Nat → X →ₗ[ℝ] Y)
+    (Lt : Nat → Y →ₗ[ℝ] X) (proxF : X → X) (proxGc : Nat → Y → Y) (τ lam : ℝ) (σ : Nat → ℝ)
+    (hτ : τ ≠ 0) (hσ : ∀ i, σ i ≠ 0) (subF : X → Set X) (subGc : Nat → Y → Set Y)
+    (hF : IsProx proxF τ subF) (hG : ∀ i, IsProx (proxGc i) (σ i) (subGc i))
+    (zeroV : X) (s : DrS X Y) (p1 : X) (p2 : Nat → Y)
+    (hk1 : -(sumAdj (fun i => ⇑(Lt i)) p2 (m - 1)) ∈ subF p1)
+    (hk2 : ∀ i, L i p1 ∈ subGc i (p2 i))
+    (hgx : s.x = p1 - (τ / 2) • sumAdj (fun i => ⇑(Lt i)) (fun i => lincomb (2 : ℝ) (p2 i) (-(1 : ℝ)) (s.v i)) (m - 1))
+    (hgv : ∀ i, s.v i = p2 i + (σ i / 2) • L i s.x) :
+    (DrP.step ⟨m, fun i => ⇑(L i), fun i => ⇑(Lt i), proxF, proxGc, τ, σ, lam⟩ zeroV s).x = s.x ∧
+    (∀ i, (DrP.step ⟨m, fun i => ⇑(L i), fun i => ⇑(Lt i), proxF, proxGc, τ, σ, lam⟩ zeroV s).v i = s.v i) ∧
+    (DrP.step ⟨m, fun i => ⇑(L i), fun i => ⇑(Lt i), proxF, proxGc, τ, σ, lam⟩ zeroV s).p1 = p1 := by
+  rw [sumAdj_lin] at hgx
+  set Pp := sumAdj (fun i => ⇑(Lt i)) p2 (m - 1) with hPp
+  set S := sumAdj (fun i => ⇑(Lt i)) s.v (m - 1) with hS
+  -- the proximal step returns p1
+  have hp1 : proxF (lincomb (1 : ℝ) s.x (-τ / 2) S) = p1 := by
+    apply (hF _ _).mpr
+    have : lincomb (1 : ℝ) s.x (-τ / 2) S - p1 = (-τ) • Pp := by
+      simp only [lincomb]; linear_combination (norm := module) hgx
+    rw [this, smul_smul, mul_neg, inv_mul_cancel₀ hτ, neg_smul, one_smul]; exact hk1
+  -- the dual proximal steps return p2
+  have hp2 : ∀ i, proxGc i (lincomb (1 : ℝ) (s.v i) (σ i / 2) (L i (lincomb (2 : ℝ) p1 (-(1 : ℝ)) s.x))) = p2 i := by
+    intro i
+    apply (hG i _ _).mpr
+    have : lincomb (1 : ℝ) (s.v i) (σ i / 2) (L i (lincomb (2 : ℝ) p1 (-(1 : ℝ)) s.x)) - p2 i = (σ i) • L i p1 := by
+      simp only [lincomb, map_add, map_smul]; linear_combination (norm := module) hgv i
+    rw [this, smul_smul, inv_mul_cancel₀ (hσ i), one_smul]; exact hk2 i
+  simp only [DrP.step, DrP.half, hm, if_false, ← hS, hp1, hp2]
+  rw [sumAdj_lin, ← hPp, ← hS]
+  have hz1 : lincomb (1 : ℝ) (lincomb (2 : ℝ) p1 (-(1 : ℝ)) s.x) (-τ / 2) ((2 : ℝ) • Pp + (-(1 : ℝ)) • S) = p1 := by
+    simp only [lincomb]; linear_combination (norm := module) (-(1 : ℝ)) • hgx
+  rw [hz1]
+  have hr1 : lincomb (2 : ℝ) p1 (-(1 : ℝ)) (lincomb (2 : ℝ) p1 (-(1 : ℝ)) s.x) = s.x := by
+    simp only [lincomb]; module
+  rw [hr1]
+  refine ⟨by simp only [lincomb]; module, fun i => ?_, trivial⟩
+  simp only [lincomb]; linear_combination (norm := module) (-lam) • hgv i
 end
+
+/-! ### F12: `forward_backward_pd` as coded does not contract on bilinear problems -/
+
+/-- F12 on the model: for the code AS IT IS (`x_old` aliased to the iterate) the quadratic form
+`σ (x−x*)² + τ v² − σ τ c (x−x*) v` is INVARIANT under the loop body on the bilinear problem
+`min ind_{b}(c x)` — for all `c, b, τ, σ` and every state.  (It is positive definite when
+`σ τ c² < 4`, in particular under the step condition `τ σ c² < 1`: the state moves on an
+ellipse around the solution and never approaches it.) -/
+theorem C12.forward_backward_pd_aliased_not_contracting {K : Type} [Field K] (c b τ σ xs : K)
+    (hxs : c * xs = b) (s : FbpdS K K) :
+    fbpdQ c τ σ xs ((fbpdBilinear c b τ σ).step fbpdXOldAliased s) = fbpdQ c τ σ xs s := by
+  subst hxs
+  simp only [fbpdQ, fbpdBilinear, FbpdP.step, fbpdXOldAliased, sumAdj, lincomb, smul_eq_mul, id,
+    if_true, Nat.one_ne_zero, if_false, Nat.sub_self]
+  ring
+
+/-- …hence along the whole run, for every `n`. -/
+theorem C12.forward_backward_pd_aliased_invariant_run {K : Type} [Field K] (c b τ σ xs : K)
+    (hxs : c * xs = b) (s : FbpdS K K) (n : Nat) :
+    fbpdQ c τ σ xs (((fbpdBilinear c b τ σ).step fbpdXOldAliased)^[n] s) = fbpdQ c τ σ xs s := by
+  induction n generalizing s with
+  | zero => rfl
+  | succ n ih =>
+    rw [Function.iterate_succ_apply, ih, C12.forward_backward_pd_aliased_not_contracting c b τ σ xs hxs]
+
+/-- A run that does not start at the solution never reaches it (`x = x*`, `v = 0`): the coded
+iteration cannot converge on this problem, whatever the (non-zero) steps. -/
+theorem C12.forward_backward_pd_aliased_never_optimal {K : Type} [Field K] (c b τ σ xs : K)
+    (hxs : c * xs = b) (s : FbpdS K K) (h0 : fbpdQ c τ σ xs s ≠ 0) (n : Nat) :
+    ¬ ((((fbpdBilinear c b τ σ).step fbpdXOldAliased)^[n] s).x = xs ∧
+       (((fbpdBilinear c b τ σ).step fbpdXOldAliased)^[n] s).v 0 = 0) := by
+  rintro ⟨h1, h2⟩
+  apply h0
+  rw [← C12.forward_backward_pd_aliased_invariant_run c b τ σ xs hxs s n]
+  simp only [fbpdQ, h1, h2]; ring
+
+/-- The DOCUMENTED iteration (`x_old` copied, `aliased = false`) on the same problem is a
+proximal-point step in the metric `N`: `N(z⁺) = N(z) − N(z⁺ − z)` with `z = (x − x*, v)`;
+`N` is positive definite when `τ σ c² < 1`, so the distance to the solution strictly
+decreases unless the state is already fixed. -/
+theorem C12.forward_backward_pd_documented_contracts {K : Type} [Field K] (c b τ σ xs : K)
+    (hxs : c * xs = b) (s : FbpdS K K) :
+    let t := (fbpdBilinear c b τ σ).step false s
+    fbpdN c τ σ (t.x - xs) (t.v 0) =
+      fbpdN c τ σ (s.x - xs) (s.v 0) - fbpdN c τ σ (t.x - s.x) (t.v 0 - s.v 0) := by
+  subst hxs
+  simp only [fbpdN, fbpdBilinear, FbpdP.step, sumAdj, lincomb, smul_eq_mul, id,
+    Nat.one_ne_zero, if_false, Nat.sub_self, Bool.false_eq_true]
+  ring
+
+/-- Under `0 < σ`, `0 < τ`, `σ τ c² < 4` (weaker than the step condition `τ σ c² < 1`) the
+invariant is positive definite, so: a run of the coded iteration that does not START at the
+solution is, after every number of iterations, still not at the solution. -/
+theorem C12.forward_backward_pd_aliased_never_converges {K : Type} [Field K] [LinearOrder K]
+    [IsStrictOrderedRing K] (c b τ σ xs : K) (hxs : c * xs = b) (hσ : 0 < σ) (hτ : 0 < τ)
+    (hstep : σ * τ * c ^ 2 < 4) (s : FbpdS K K) (h0 : s.x ≠ xs ∨ s.v 0 ≠ 0) (n : Nat) :
+    ¬ ((((fbpdBilinear c b τ σ).step fbpdXOldAliased)^[n] s).x = xs ∧
+       (((fbpdBilinear c b τ σ).step fbpdXOldAliased)^[n] s).v 0 = 0) := by
+  apply C12.forward_backward_pd_aliased_never_optimal c b τ σ xs hxs s
+  intro hq
+  simp only [fbpdQ] at hq
+  set e := s.x - xs with he
+  set v := s.v 0 with hv
+  -- Q = σ (e − τ c v / 2)² + τ (1 − σ τ c² / 4) v²
+  have hsq : σ * (e - τ * c * v / 2) ^ 2 + τ * (1 - σ * τ * c ^ 2 / 4) * v ^ 2 = 0 := by
+    rw [← hq]; ring
+  have h1 : 0 ≤ σ * (e - τ * c * v / 2) ^ 2 := mul_nonneg hσ.le (sq_nonneg _)
+  have hk : 0 < τ * (1 - σ * τ * c ^ 2 / 4) := mul_pos hτ (by linarith)
+  have h2 : 0 ≤ τ * (1 - σ * τ * c ^ 2 / 4) * v ^ 2 := mul_nonneg hk.le (sq_nonneg _)
+  have hv0 : v = 0 := by
+    have : τ * (1 - σ * τ * c ^ 2 / 4) * v ^ 2 = 0 := by linarith
+    rcases mul_eq_zero.mp this with h | h
+    · exact absurd h (ne_of_gt hk)
+    · exact pow_eq_zero_iff (two_ne_zero) |>.mp h
+  have he0 : e = 0 := by
+    have : σ * (e - τ * c * v / 2) ^ 2 = 0 := by linarith
+    rcases mul_eq_zero.mp this with h | h
+    · exact absurd h (ne_of_gt hσ)
+    · have := pow_eq_zero_iff (two_ne_zero) |>.mp h
+      rw [hv0] at this; simpa using this
+  rcases h0 with h | h
+  · exact h (sub_eq_zero.mp he0)
+  · exact h hv0
+
+
+/-- Concrete history over ℚ (`c = b = 1`, `τ = σ = 1/2`, start `x = 3`, `v = 0`; solution `x* = 1`):
+the coded step gives `x = 3, 5/2, 13/8` after 1, 2, 3 iterations, and after 12 iterations the
+invariant still has its initial value `2` (so `(x − 1, v)` is still on the same ellipse). -/
+example :
+    let P := fbpdBilinear (1 : ℚ) 1 (1 / 2) (1 / 2)
+    let s0 : FbpdS ℚ ℚ := ⟨3, fun _ => 0, 0⟩
+    ((P.step fbpdXOldAliased)^[3] s0).x = 13 / 8 ∧
+    fbpdQ 1 (1 / 2) (1 / 2) 1 ((P.step fbpdXOldAliased)^[12] s0) = 2 ∧
+    fbpdQ 1 (1 / 2) (1 / 2) 1 s0 = 2 := by
+  refine ⟨?_, ?_, by simp only [fbpdQ]; norm_num⟩
+  · simp only [Function.iterate_succ, Function.iterate_zero, Function.comp, fbpdBilinear,
+      FbpdP.step, fbpdXOldAliased, Nat.sub_self, sumAdj, lincomb, smul_eq_mul, id,
+      Nat.one_ne_zero, if_false, if_true]
+    norm_num
+  · rw [C12.forward_backward_pd_aliased_invariant_run 1 1 (1 / 2) (1 / 2) 1 (by norm_num)]
+    simp only [fbpdQ]; norm_num
 
 /-! ### Non-vacuity -/
 
